@@ -26,6 +26,8 @@ func init() {
 					c.Params["maxscript"] = 8
 				}
 			}},
+			{Dir: "root", Name: "ZZ_C01_legacy", Tiers: "thorough", Reach: []string{"end"}, Tweak: ecStubs(true)},
+			{Dir: "root", Name: "ZZ_C01_pubkey", Tiers: "thorough", Reach: []string{"end"}, Tweak: ecStubs(true)},
 		},
 	})
 	reg(&PropSpec{
@@ -44,6 +46,8 @@ func init() {
 			{Dir: "root", Name: "ZZ_C03_cash", Variant: "L61w5", Tiers: "thorough", Reach: []string{"accepted"}, Tweak: params(true, "paylen", 53, "w", 5)},
 			{Dir: "root", Name: "ZZ_C03_cash", Variant: "L112w4", Tiers: "thorough", Reach: []string{"accepted"}, Tweak: params(true, "paylen", 104, "w", 4)},
 			{Dir: "bech32", Name: "ZZ_C03_bech32", Variant: "D88w3", Reach: []string{"accepted", "rejected"}, Tweak: params(true, "datalen", 82, "w", 3)},
+			{Dir: "root", Name: "ZZ_C03_cash_foreign", Variant: "L10", Reach: []string{"in"}, Tweak: params(false, "paylen", 2)},
+			{Dir: "bech32", Name: "ZZ_C03_bech32_foreign", Variant: "D8", Reach: []string{"in"}, Tweak: params(false, "datalen", 2)},
 			{Dir: "bech32", Name: "ZZ_C03_bech32", Variant: "D88w4", Tiers: "thorough", Reach: []string{"accepted"}, Tweak: params(true, "datalen", 82, "w", 4)},
 		},
 	})
@@ -129,6 +133,16 @@ func init() {
 		ID: "C10",
 		Harnesses: []HarnessSpec{
 			{Dir: "bloom", Name: "ZZ_C10_matchtx", Variant: "k<=1,out<=1,in<=1,pushes<=1", Reach: []string{"end"}, Tweak: bloomStubs("maxk", 1, "maxout", 1, "maxin", 1, "maxpushes", 1, "maxpushlen", 1)},
+			{Dir: "bloom", Name: "ZZ_C10_block", Variant: "tx<=2 (thorough 3),in<=1", Reach: []string{"end"}, Tweak: func(c *sym.HarnessCfg, tier string) {
+				c.Params["maxtx"], c.Params["maxin"] = 2, 1
+				if tier == "thorough" {
+					c.Params["maxtx"] = 3
+				}
+				c.Stubs = map[string]string{
+					"(*github.com/gcash/bchutil/bloom.Filter).MatchTxAndUpdate": "zzStubIdealMatch",
+					"(*github.com/gcash/bchd/wire.MsgTx).TxHash":                "zzStubIdealTxHash",
+				}
+			}},
 			{Dir: "bloom", Name: "ZZ_C10_matchtx", Variant: "k<=2,out<=2,in<=1,pushes<=2", Tiers: "thorough", Reach: []string{"end"}, Tweak: bloomStubs("maxk", 2, "maxout", 2, "maxin", 1, "maxpushes", 2, "maxpushlen", 1)},
 		},
 	})
@@ -353,8 +367,8 @@ func init() {
 	meta("C10", []string{
 		"txscript.PushedData / GetScriptClass / MsgTx.TxHash are nondeterministic stubs (arbitrary parse result per script, arbitrary class, arbitrary txid)",
 		"MurmurHash3 uninterpreted, x % m abstracted as in C09",
-	}, []string{"block scanning (GetMatchedIndices) and intra-block spend graphs", "real script parsing", "transactions larger than the tier bound"},
-		"quick: HashFuncs<=1, <=1 output, <=1 input, <=1 push of <=1 byte per script, all three update flags (symbolic)", "thorough: HashFuncs<=2, <=2 outputs, <=2 pushes")
+	}, []string{"false-positive interactions in block scans (the block harness uses an ideal-set filter: it contains exactly the outpoints added so far)", "real script parsing", "transactions / blocks larger than the tier bound"},
+		"quick: HashFuncs<=1, <=1 output, <=1 input, <=1 push of <=1 byte per script, all three update flags (symbolic); block scans: <=3 transactions with 2 outputs and <=1 input each, every spend graph and order, ideal-set filter", "thorough: HashFuncs<=2, <=2 outputs, <=2 pushes")
 	meta("C04", []string{
 		"HMAC-SHA512, SHA-256, RIPEMD-160 are uninterpreted functions; secp256k1 is idealised: k*G and point addition are uninterpreted functions of their byte arguments, ParsePubKey applies bchec's format-byte rules with curve membership/decompression uninterpreted, serialisers are format||X||Y (harness/hdkeychain/stubs.go)",
 		"the parent key satisfies the package's representation invariant: private key = 32 bytes with value in [1,n-1], public key = 33 bytes accepted by ParsePubKey, chain code 32 bytes, fingerprint 4 bytes (established by NewMaster, Child and NewKeyFromString; one Child step from such a key is the inductive step for paths of any length)",
@@ -437,6 +451,21 @@ func gcsCfg(kv ...interface{}) func(c *sym.HarnessCfg, tier string) {
 		c.Stubs = map[string]string{"github.com/gcash/bchutil/gcs.fastReduction": "zzStubFastReduction"}
 		for i := 0; i+1 < len(kv); i += 2 {
 			c.Params[kv[i].(string)] = kv[i+1].(int)
+		}
+	}
+}
+
+// ecStubs: idealised secp256k1 for the root package harnesses (Base58 stays the engine's abstract bijection).
+func ecStubs(lazy bool) func(c *sym.HarnessCfg, tier string) {
+	return func(c *sym.HarnessCfg, tier string) {
+		c.Lazy = lazy
+		c.Stubs = map[string]string{
+			"github.com/gcash/bchd/bchec.S256":                               "zzStubS256",
+			"(*github.com/gcash/bchd/bchec.KoblitzCurve).ScalarBaseMult":     "zzStubSBM",
+			"github.com/gcash/bchd/bchec.ParsePubKey":                        "zzStubParsePubKey",
+			"(*github.com/gcash/bchd/bchec.PublicKey).SerializeCompressed":   "zzStubSerCompressed",
+			"(*github.com/gcash/bchd/bchec.PublicKey).SerializeUncompressed": "zzStubSerUncompressed",
+			"(*github.com/gcash/bchd/bchec.PublicKey).SerializeHybrid":       "zzStubSerHybrid",
 		}
 	}
 }
